@@ -34,7 +34,8 @@
 From Coq Require Import ZArith List Bool.
 From Batchie Require Import Model.Orchestrate Proofs.C19Base Proofs.C19Canon Proofs.C19Step Proofs.C19Main
   Proofs.C19Invocation Proofs.C19InvocationThm Generated.SrcOrchestrate Proofs.C19Source
-  Generated.SrcOrchMain Proofs.C19SourceMain Generated.SrcOrchCmd Proofs.C19SourceCmd.
+  Generated.SrcOrchMain Proofs.C19SourceMain Generated.SrcOrchCmd Proofs.C19SourceCmd
+  Generated.SrcOrchInit Proofs.C19Source_ValidateInitial.
 Import ListNotations.
 
 (* For EVERY crash schedule (any number of crashes, at any event of any call), batch size, number of
@@ -588,4 +589,76 @@ Example C19_source_dir_sort_key_examples :
   /\ src_dir_sort_key [[105; 116; 101; 114]]%Z = SRaised [] 98%Z
   /\ src_dir_sort_key [[105; 116; 101; 114; 95; 120]]%Z = SRaised [] 7%Z
   /\ iter_pathname [[111; 117; 116]]%Z (12%Z, []) = [[111; 117; 116]; [105; 116; 101; 114; 95; 49; 50]]%Z.
+Proof. vm_compute. repeat split; reflexivity. Qed.
+
+(* ---- validate_initial_output_dir_and_get_result_files_as_dict, the whole function (Generated/SrcOrchInit.v, configuration
+   C19_VALIDATE_INITIAL; proofs: Proofs/C19Source_ValidateInitial.v).  It is handed the job directory of the initial step; the
+   three globs are model primitives as for the other helpers, everything else - `len(training) == 0 or len(metadata) == 0`,
+   the three [0] reads in their order, the `with open ... json.load`, which value sits under which key of the dict - comes from
+   the translation.  The model value: None when training.screen.h5 or screen_metadata.json is missing; an IndexError
+   (SRaised [] 98) when those two are there and test.screen.h5 is not; otherwise the record of the three. *)
+Theorem C19_model_is_source_validate_initial_output_dir : forall p : plate_path,
+  src_validate_initial p = validate_initial p.
+Proof. exact src_validate_initial_is_model. Qed.
+Print Assumptions C19_model_is_source_validate_initial_output_dir.
+
+(* which files must exist: the translated function returns the dict EXACTLY when test.screen.h5, training.screen.h5 and
+   screen_metadata.json (Orchestrate.initial_required) are all in the directory, and the dict names that directory's own two
+   screens and carries the metadata stored there *)
+Theorem C19_model_is_source_validate_initial_accepts_iff : forall (p : plate_path) (r : initial_files),
+  src_validate_initial p = SOk (Some r) <->
+  forallb (produced (snd p)) [KTest; KTraining; KMeta] = true /\ if_test r = SFile (fst p) KTest
+  /\ if_training r = SFile (fst p) KTraining /\ f_meta (snd p) = Some (if_meta r).
+Proof. exact src_validate_initial_accepts_iff. Qed.
+Print Assumptions C19_model_is_source_validate_initial_accepts_iff.
+
+(* what it raises: nothing but the IndexError of `test_screen_glob[0]`, exactly when only the test screen is missing, before
+   anything is touched; a missing training screen or metadata file is the None return; it never names a directory *)
+Theorem C19_model_is_source_validate_initial_raises_iff : forall (p : plate_path) done why,
+  src_validate_initial p = SRaised done why <->
+  produced (snd p) KTraining && produced (snd p) KMeta = true /\ produced (snd p) KTest = false /\ done = [] /\ why = 98%Z.
+Proof. exact src_validate_initial_raises_iff. Qed.
+Print Assumptions C19_model_is_source_validate_initial_raises_iff.
+
+Theorem C19_model_is_source_validate_initial_none_iff : forall p : plate_path,
+  src_validate_initial p = SOk None <-> produced (snd p) KTraining && produced (snd p) KMeta = false.
+Proof. exact src_validate_initial_none_iff. Qed.
+Print Assumptions C19_model_is_source_validate_initial_none_iff.
+
+Theorem C19_model_is_source_validate_initial_never_names : forall (p : plate_path) w s,
+  src_validate_initial p <> SNamed w s.
+Proof. exact src_validate_initial_never_names. Qed.
+Print Assumptions C19_model_is_source_validate_initial_never_names.
+
+(* the model's notion of a complete initial step: a run of the initial workflow that the model counts as complete
+   (complete_run: every file `expected` of LInit published - the three required ones are among them) leaves a directory the
+   translated function accepts ... *)
+Theorem C19_model_is_source_validate_initial_complete_run : forall md sc (p : plate_path),
+  complete_run md (LInit sc) (snd p) = true ->
+  exists m, f_meta (snd p) = Some m /\
+            src_validate_initial p = SOk (Some (mkif (SFile (fst p) KTest) (SFile (fst p) KTraining) m)).
+Proof. exact src_validate_initial_complete_run. Qed.
+Print Assumptions C19_model_is_source_validate_initial_complete_run.
+
+(* ... and on EVERY tree the retrospective script reaches (any crash schedule, marker last, repaired examine or batch size 1)
+   a job directory iter_0/plate_0 that carries the completion marker is accepted: the dict names its test and training screen
+   and says n - 1 plates are unobserved - never None, never the IndexError *)
+Theorem C19_model_is_source_validate_initial_on_reachable_trees : forall (bs n : nat) fixed,
+  (1 <= bs)%nat -> (1 <= n)%nat -> fixed = true \/ bs = 1%nat ->
+  forall sched, Forall (fun e => entry_ok e = true) sched ->
+  let f := fst (script_run Retro fixed (Z.of_nat bs) n [] sched) in
+  forall p : plate_path, In p (completed f) -> fst p = (0, 0)%Z ->
+  src_validate_initial p = SOk (Some (mkif (SFile (0, 0)%Z KTest) (SFile (0, 0)%Z KTraining) (Z.of_nat n - 1)%Z)).
+Proof. exact src_validate_initial_on_reachable_trees. Qed.
+Print Assumptions C19_model_is_source_validate_initial_on_reachable_trees.
+
+(* each required file missing in turn, the others present *)
+Example C19_source_validate_initial_each_missing :
+  let d tr te me := (((0, 0)%Z, mkp tr te true true (Some 0%Z) (Some [1; 2]%Z) me None) : plate_path) in
+  src_validate_initial (d (Some [0; 1; 2]%Z) true (Some 2%Z))
+    = SOk (Some (mkif (SFile (0, 0)%Z KTest) (SFile (0, 0)%Z KTraining) 2%Z)) /\
+  src_validate_initial (d None true (Some 2%Z)) = SOk None /\
+  src_validate_initial (d (Some [0; 1; 2]%Z) true None) = SOk None /\
+  src_validate_initial (d (Some [0; 1; 2]%Z) false (Some 2%Z)) = SRaised [] 98%Z /\
+  src_validate_initial (d None false None) = SOk None.
 Proof. vm_compute. repeat split; reflexivity. Qed.
